@@ -1,3 +1,1082 @@
-use crate::{campaign::{RunReport, Stats}, lsp::LspTrace};
-pub fn execute(_t: &LspTrace, _stats: &mut Stats) -> RunReport { RunReport { violations: vec![], nontrivial: false } }
-pub fn shrink(_t: &LspTrace) -> Vec<LspTrace> { vec![] }
+//! Generators, execution, reference models, oracles and shrinking for the `lsp` campaigns
+//! (C11, C12, C15).
+
+use std::collections::BTreeMap;
+
+use ironplc_dsl::core::FileId;
+use ironplc_parser::{options::ParseOptions, tokenize_program};
+use serde_json::Value;
+
+use crate::{
+    campaign::{RunReport, Stats, Violation},
+    lsp::{event_message, expand_uri, uri_path, Event, Incarnation, LspTrace, Session, Step},
+    pool,
+    prng::{hash_str, mix, Rng},
+    seam::{panic_signature, run_simulated_process, SimHooks},
+    world::{root, DiagRec},
+};
+
+fn viol(prop: &str, signature: String, detail: String) -> Violation {
+    Violation { property: prop.to_string(), signature, detail }
+}
+
+pub const WS_URIS: &[&str] = &["ws:a.st", "ws:b.st", "ws:c.st", "ws:d.st"];
+pub const ODD_URIS: &[&str] = &["untitled:Untitled-1", "http://example.com/x.st", "ws:a%20b.st", "file:///C:/dir/x.st", "ws:never.st", "ws:sub/deep.st"];
+pub const UNKNOWN_REQUESTS: &[&str] = &["textDocument/hover", "textDocument/completion", "workspace/symbol", "$/unknown", "textDocument/definition", "textDocument/documentSymbol"];
+pub const UNKNOWN_NOTIFICATIONS: &[&str] =
+    &["textDocument/didClose", "textDocument/didSave", "$/cancelRequest", "$/setTrace", "workspace/didChangeConfiguration", "workspace/didChangeWatchedFiles", "$/simplc/unknown"];
+
+// ---------------------------------------------------------------------------------------------
+// Generators
+
+/// A pool of document texts for one history: pieces of generated worlds (so that documents refer
+/// to each other), faulty pieces and the five fixed classes.
+fn text_pool(rng: &mut Rng, slots: usize) -> Vec<String> {
+    let mut texts = vec![];
+    for _ in 0..rng.range(1, 2) {
+        let size = rng.range(2, 6);
+        let w = if rng.chance(2, 3) { pool::gen_valid(rng, size) } else { { let k = *rng.pick(pool::FAULT_KINDS); pool::gen_faulty(rng, size, k) } };
+        // split into `slots` pieces, keeping declaration order
+        let mut pieces = vec![String::new(); slots.max(1)];
+        for d in &w.decls {
+            let p = rng.below(pieces.len());
+            pieces[p].push_str(&d.text);
+        }
+        texts.extend(pieces);
+    }
+    for (i, class) in pool::DOC_CLASSES.iter().enumerate() {
+        if rng.chance(1, 2) {
+            texts.push(pool::class_text(class, i % 2));
+        }
+    }
+    texts.push(String::new());
+    texts
+}
+
+fn version_for(rng: &mut Rng, counter: &mut i32) -> i32 {
+    *counter += 1;
+    match rng.below(12) {
+        0 => *counter - 1,        // stale / repeated version
+        1 => *counter + 7,        // gap
+        2 => 0,
+        _ => *counter,
+    }
+}
+
+/// The enumerated part of the C11 quantifier: history number `index` among all notification
+/// sequences of length <= max_len over 2 URIs x 5 texts x {open, change}.
+pub fn enumerated_history(index: u64, max_len: u32) -> Option<Vec<Event>> {
+    let mut idx = index;
+    let mut len = 1u32;
+    loop {
+        let count = 20u64.pow(len);
+        if idx < count {
+            break;
+        }
+        idx -= count;
+        len += 1;
+        if len > max_len {
+            return None;
+        }
+    }
+    let mut events = vec![];
+    let mut versions = [0i32; 2];
+    for _ in 0..len {
+        let choice = (idx % 20) as usize;
+        idx /= 20;
+        let slot = choice % 2;
+        let class = pool::DOC_CLASSES[(choice / 2) % 5];
+        let open = choice / 10 == 0;
+        versions[slot] += 1;
+        let uri = WS_URIS[slot].to_string();
+        let text = pool::class_text(class, slot);
+        events.push(if open { Event::Open { uri, version: versions[slot], text } } else { Event::Change { uri, version: versions[slot], texts: vec![text] } });
+    }
+    Some(events)
+}
+
+pub fn enumerated_count(max_len: u32) -> u64 {
+    (1..=max_len).map(|l| 20u64.pow(l)).sum()
+}
+
+fn gen_ws_files(rng: &mut Rng, texts: &[String]) -> Vec<(String, String)> {
+    let mut files = vec![];
+    let names = ["a.st", "b.st", "e.st", "notes.txt", "f.IEC"];
+    for n in names {
+        if rng.chance(1, 3) {
+            files.push((n.to_string(), rng.pick(texts).clone()));
+        }
+    }
+    files
+}
+
+fn gen_edit_event(rng: &mut Rng, texts: &[String], uris: &[&str], counter: &mut i32, allow_multi: bool) -> Event {
+    let uri = rng.pick(uris).to_string();
+    let version = version_for(rng, counter);
+    if rng.chance(2, 5) {
+        Event::Open { uri, version, text: rng.pick(texts).clone() }
+    } else {
+        let n = if allow_multi {
+            match rng.below(10) {
+                0 => 0,
+                1 | 2 => 2,
+                _ => 1,
+            }
+        } else {
+            1
+        };
+        Event::Change { uri, version, texts: (0..n).map(|_| rng.pick(texts).clone()).collect() }
+    }
+}
+
+pub fn gen_c11(rng: &mut Rng, thorough: bool, run_index: u64) -> LspTrace {
+    let max_len = if thorough { 4 } else { 3 };
+    if let Some(events) = enumerated_history(run_index, max_len) {
+        return LspTrace { prop: "C11".into(), ws_files: vec![], use_ws_folder: false, events, hash_seeds: vec![rng.next(), rng.next()], dir_seed: rng.next(), mode: "enumerated".into() };
+    }
+    let slots = rng.range(2, 4);
+    let texts = text_pool(rng, slots);
+    let uris: Vec<&str> = WS_URIS[..slots].to_vec();
+    let use_ws_folder = rng.chance(1, 3);
+    let ws_files = if use_ws_folder || rng.chance(1, 6) { gen_ws_files(rng, &texts) } else { vec![] };
+    // swarm: which fault kinds are enabled for this history
+    let allow_multi = rng.chance(1, 2);
+    let allow_restart = rng.chance(1, 2);
+    let allow_dup = rng.chance(1, 3);
+    let len = if rng.chance(1, 2) { rng.range(1, 8) } else { rng.range(5, 40) };
+    let mut events = vec![];
+    let mut counter = 0;
+    for _ in 0..len {
+        let e = match rng.below(20) {
+            0 if allow_restart => Event::Restart,
+            1 if allow_dup => Event::DupPrev,
+            2 => Event::UnknownNotification { method: "textDocument/didClose".into(), uri: rng.pick(&uris).to_string() },
+            _ => gen_edit_event(rng, &texts, &uris, &mut counter, allow_multi),
+        };
+        events.push(e);
+    }
+    LspTrace { prop: "C11".into(), ws_files, use_ws_folder, events, hash_seeds: (0..4).map(|_| rng.next()).collect(), dir_seed: rng.next(), mode: "random".into() }
+}
+
+pub fn gen_c12(rng: &mut Rng, _thorough: bool) -> LspTrace {
+    let texts = text_pool(rng, 2);
+    let mut uris: Vec<&str> = WS_URIS[..2].to_vec();
+    // swarm configuration: a random subset of the fault kinds is enabled per history
+    let en_odd_uri = rng.chance(1, 2);
+    let en_unknown_req = rng.chance(2, 3);
+    let en_unknown_notif = rng.chance(2, 3);
+    let en_client_resp = rng.chance(1, 2);
+    let en_multi = rng.chance(2, 3);
+    let en_dup = rng.chance(1, 2);
+    let en_semtok = rng.chance(2, 3);
+    if en_odd_uri {
+        for _ in 0..rng.range(1, 3) {
+            uris.push(*rng.pick(ODD_URIS));
+        }
+    }
+    let len = if rng.chance(1, 3) { rng.range(1, 6) } else { rng.range(4, 60) };
+    let mut events = vec![];
+    let mut counter = 0;
+    for _ in 0..len {
+        let e = match rng.below(12) {
+            0 | 1 if en_unknown_req => Event::UnknownRequest { method: rng.pick(UNKNOWN_REQUESTS).to_string(), uri: rng.pick(&uris).to_string(), string_id: rng.chance(1, 4) },
+            2 | 3 if en_unknown_notif => Event::UnknownNotification { method: rng.pick(UNKNOWN_NOTIFICATIONS).to_string(), uri: rng.pick(&uris).to_string() },
+            4 if en_client_resp => Event::ClientResponse { id: rng.below(5) as i32, error: rng.chance(1, 2) },
+            5 if en_dup => Event::DupPrev,
+            6 | 7 if en_semtok => Event::SemTok { uri: rng.pick(&uris).to_string() },
+            _ => gen_edit_event(rng, &texts, &uris, &mut counter, en_multi),
+        };
+        events.push(e);
+    }
+    // recovery probe: after the last fault event a valid document on a fresh URI is still served
+    events.push(Event::Open { uri: "ws:probe.st".into(), version: 1, text: pool::class_text("valid", 7) });
+    let use_ws_folder = rng.chance(1, 4);
+    let ws_files = if use_ws_folder { gen_ws_files(rng, &texts) } else { vec![] };
+    LspTrace { prop: "C12".into(), ws_files, use_ws_folder, events, hash_seeds: vec![rng.next()], dir_seed: rng.next(), mode: "random".into() }
+}
+
+/// Adds layout trivia of the kinds the C15 quantifier names.
+fn with_trivia(rng: &mut Rng, text: &str) -> String {
+    let mut out = String::new();
+    for line in text.split_inclusive('\n') {
+        match rng.below(12) {
+            0 => {
+                // comment before tokens on the same line
+                out.push_str("(* lead *) ");
+                out.push_str(line);
+            }
+            1 => {
+                out.push_str("(* spans\n   two lines *) ");
+                out.push_str(line);
+            }
+            2 => {
+                out.push_str(line.trim_end_matches('\n'));
+                out.push_str(" (* trailing *)\n");
+            }
+            3 => {
+                out.push_str("\t");
+                out.push_str(line);
+            }
+            _ => out.push_str(line),
+        }
+    }
+    if rng.chance(1, 4) {
+        out = out.replace('\n', "\r\n");
+    }
+    out
+}
+
+pub fn gen_c15(rng: &mut Rng, _thorough: bool) -> LspTrace {
+    let slots = rng.range(1, 3);
+    let base = text_pool(rng, slots);
+    let texts: Vec<String> = base.iter().map(|t| if rng.chance(2, 3) { with_trivia(rng, t) } else { t.clone() }).collect();
+    let mut uris: Vec<&str> = WS_URIS[..slots].to_vec();
+    if rng.chance(1, 4) {
+        uris.push(*rng.pick(ODD_URIS));
+    }
+    let allow_restart = rng.chance(1, 3);
+    let len = if rng.chance(1, 2) { rng.range(2, 8) } else { rng.range(6, 30) };
+    let mut events = vec![];
+    let mut counter = 0;
+    for _ in 0..len {
+        let e = match rng.below(10) {
+            0 if allow_restart => Event::Restart,
+            1 | 2 | 3 => Event::SemTok { uri: rng.pick(&uris).to_string() },
+            _ => gen_edit_event(rng, &texts, &uris, &mut counter, false),
+        };
+        events.push(e);
+    }
+    events.push(Event::SemTok { uri: rng.pick(&uris).to_string() });
+    LspTrace { prop: "C15".into(), ws_files: vec![], use_ws_folder: false, events, hash_seeds: (0..3).map(|_| rng.next()).collect(), dir_seed: rng.next(), mode: "random".into() }
+}
+
+pub fn generate(prop: &str, rng: &mut Rng, thorough: bool, run_index: u64) -> LspTrace {
+    match prop {
+        "C11" => gen_c11(rng, thorough, run_index),
+        "C12" => gen_c12(rng, thorough),
+        "C15" => gen_c15(rng, thorough),
+        other => panic!("no lsp generator for {other}"),
+    }
+}
+
+// ---------------------------------------------------------------------------------------------
+// Execution
+
+fn lay_out_ws(t: &LspTrace) {
+    let r = root();
+    let _ = std::fs::remove_dir_all(r);
+    std::fs::create_dir_all(r.join("ws")).expect("create ws");
+    for (name, text) in &t.ws_files {
+        let _ = std::fs::write(r.join("ws").join(name), text);
+    }
+}
+
+fn ws_folder_uri(t: &LspTrace) -> Option<String> {
+    if t.use_ws_folder {
+        Some(format!("file://{}/ws", root().display()))
+    } else {
+        None
+    }
+}
+
+/// The reference model of the editor: what each document currently contains.
+#[derive(Clone, Debug, Default)]
+pub struct Model {
+    /// symbolic uri -> (version, text)
+    pub docs: BTreeMap<String, (i32, String)>,
+}
+
+impl Model {
+    pub fn apply(&mut self, ev: &Event) {
+        match ev {
+            Event::Open { uri, version, text } => {
+                if uri_path(uri).is_some() {
+                    self.docs.insert(uri.clone(), (*version, text.clone()));
+                }
+            }
+            Event::Change { uri, version, texts } => {
+                if uri_path(uri).is_some() {
+                    if let Some(last) = texts.last() {
+                        self.docs.insert(uri.clone(), (*version, last.clone()));
+                    }
+                }
+            }
+            _ => {}
+        }
+    }
+    /// Updates the model from a message as it was sent to the server (full URIs).
+    pub fn apply_sent(&mut self, sent: &Value) {
+        let m = method_of(sent);
+        let td = &sent["params"]["textDocument"];
+        let (Some(uri), Some(version)) = (td["uri"].as_str(), td["version"].as_i64()) else { return };
+        if uri_path(uri).is_none() {
+            return;
+        }
+        if m == "textDocument/didOpen" {
+            if let Some(text) = td["text"].as_str() {
+                self.docs.insert(uri.to_string(), (version as i32, text.to_string()));
+            }
+        } else if m == "textDocument/didChange" {
+            if let Some(last) = sent["params"]["contentChanges"].as_array().and_then(|a| a.last()) {
+                if let Some(text) = last["text"].as_str() {
+                    self.docs.insert(uri.to_string(), (version as i32, text.to_string()));
+                }
+            }
+        }
+    }
+    /// documents keyed by path (two URIs may denote the same file)
+    pub fn by_path(&self) -> BTreeMap<String, String> {
+        let mut m = BTreeMap::new();
+        for (uri, (_, text)) in &self.docs {
+            if let Some(p) = uri_path(uri) {
+                m.insert(p, text.clone());
+            }
+        }
+        m
+    }
+}
+
+pub struct History {
+    pub incarnations: Vec<Incarnation>,
+}
+
+pub fn run_history(t: &LspTrace) -> History {
+    lay_out_ws(t);
+    let hooks = SimHooks::new(root(), t.dir_seed, vec![]);
+    let mut incs = vec![];
+    let mut seed_i = 0;
+    let seed = |i: usize| t.hash_seeds.get(i % t.hash_seeds.len().max(1)).copied().unwrap_or(1);
+    let mut session = Session::start(seed(seed_i), hooks.clone(), ws_folder_uri(t));
+    let mut model = Model::default();
+    let mut prev_notification: Option<(usize, lsp_server::Message)> = None;
+    for (i, ev) in t.events.iter().enumerate() {
+        if session.is_dead() {
+            break;
+        }
+        match ev {
+            Event::Restart => {
+                incs.push(session.crash());
+                seed_i += 1;
+                session = Session::start(seed(seed_i), hooks.clone(), ws_folder_uri(t));
+                // the editor re-opens what it believes to be open
+                for (uri, (version, text)) in model.docs.clone() {
+                    let open = Event::Open { uri, version, text };
+                    session.deliver(Some(i), "reopen", event_message(&open, i).unwrap());
+                }
+                prev_notification = None;
+            }
+            Event::DupPrev => {
+                if let Some((_, m)) = &prev_notification {
+                    session.deliver(Some(i), "duplicateDelivery", m.clone());
+                }
+            }
+            _ => {
+                let m = event_message(ev, i).unwrap();
+                if matches!(m, lsp_server::Message::Notification(_)) {
+                    prev_notification = Some((i, m.clone()));
+                } else {
+                    prev_notification = None;
+                }
+                session.deliver(Some(i), ev.kind(), m);
+                model.apply(ev);
+            }
+        }
+    }
+    incs.push(session.shutdown_and_exit());
+    History { incarnations: incs }
+}
+
+// ---------------------------------------------------------------------------------------------
+// Helpers over recorded JSON
+
+fn is_response(v: &Value) -> bool {
+    v.get("id").is_some() && v.get("method").is_none()
+}
+fn is_request(v: &Value) -> bool {
+    v.get("id").is_some() && v.get("method").is_some()
+}
+fn method_of(v: &Value) -> String {
+    v.get("method").and_then(|m| m.as_str()).unwrap_or("").to_string()
+}
+
+fn publish_of(step: &Step) -> Vec<&Value> {
+    step.outputs.iter().filter(|o| method_of(o) == "textDocument/publishDiagnostics").collect()
+}
+
+/// The notification a step delivered, as (uri, version, is didOpen/didChange).
+fn edit_of(step: &Step) -> Option<(String, i64)> {
+    let m = method_of(&step.sent);
+    if m != "textDocument/didOpen" && m != "textDocument/didChange" {
+        return None;
+    }
+    let td = &step.sent["params"]["textDocument"];
+    Some((td["uri"].as_str()?.to_string(), td["version"].as_i64()?))
+}
+
+fn short(v: &Value) -> String {
+    let s = v.to_string();
+    if s.len() > 300 {
+        format!("{}…", &s[..300])
+    } else {
+        s
+    }
+}
+
+fn class_of_text(text: &str) -> &'static str {
+    if text.is_empty() {
+        return "empty";
+    }
+    let (_, lex) = tokenize_program(text, &FileId::default(), &ParseOptions::default());
+    if !lex.is_empty() {
+        return "lexerr";
+    }
+    match ironplc_parser::parse_program(text, &FileId::default(), &ParseOptions::default()) {
+        Err(_) => "synerr",
+        Ok(_) => "parses",
+    }
+}
+
+// ---------------------------------------------------------------------------------------------
+// C12: protocol monitor
+
+fn oracle_c12(t: &LspTrace, h: &History, stats: &mut Stats) -> Vec<Violation> {
+    let mut out = vec![];
+    for inc in &h.incarnations {
+        for (si, step) in inc.steps.iter().enumerate() {
+            let responses: Vec<&Value> = step.outputs.iter().filter(|o| is_response(o)).collect();
+            let m = method_of(&step.sent);
+            if is_request(&step.sent) {
+                let id = &step.sent["id"];
+                let died_here = inc.died_at_step == Some(si);
+                let matching = responses.iter().filter(|r| &r["id"] == id).count();
+                if matching == 0 && !died_here {
+                    out.push(viol("C12", format!("C12/no-response/method={m}"), format!("request {} got no response; outputs of the step: {:?}", short(&step.sent), step.outputs.iter().map(short).collect::<Vec<_>>())));
+                } else if matching > 1 {
+                    out.push(viol("C12", format!("C12/duplicate-response/method={m}"), format!("request {} was answered {matching} times", short(&step.sent))));
+                }
+                if responses.len() > matching {
+                    out.push(viol("C12", format!("C12/foreign-response/method={m}"), format!("while processing {} the server emitted a response with another id: {:?}", short(&step.sent), responses.iter().map(|r| short(r)).collect::<Vec<_>>())));
+                }
+                if matching == 1 {
+                    stats.count("c12.requests_answered");
+                }
+            } else if !responses.is_empty() {
+                let what = if is_response(&step.sent) { "client-response".to_string() } else { format!("notification={m}") };
+                out.push(viol("C12", format!("C12/response-without-request/{what}"), format!("{} is not a request but the server emitted {:?}", short(&step.sent), responses.iter().map(|r| short(r)).collect::<Vec<_>>())));
+            }
+            // server -> client requests are not part of this server's repertoire
+            if step.outputs.iter().any(is_request) {
+                out.push(viol("C12", "C12/server-sent-request".into(), format!("server sent a request while processing {}", short(&step.sent))));
+            }
+        }
+        if let Some(why) = &inc.died {
+            let at = inc.died_at_step.and_then(|i| inc.steps.get(i));
+            let kind = at.map(|s| s.label.clone()).unwrap_or_default();
+            out.push(viol(
+                "C12",
+                format!("C12/server-died/{kind}/{}", panic_signature(why)),
+                format!("server terminated while processing step {:?} ({}): {why}", inc.died_at_step, at.map(|s| short(&s.sent)).unwrap_or_default()),
+            ));
+        } else if !inc.crashed_by_simulator {
+            match &inc.result {
+                Some(Ok(())) => stats.count("c12.clean_exits"),
+                other => out.push(viol("C12", "C12/exit-status".into(), format!("after shutdown + exit start_with_connection returned {other:?} (the process would not exit with status 0)"))),
+            }
+        }
+    }
+    // recovery probe: the last event (a didOpen of a valid document on a fresh URI) is served
+    if let Some(last_inc) = h.incarnations.last() {
+        if last_inc.died.is_none() {
+            let probe_index = t.events.len() - 1;
+            if let Some(step) = last_inc.steps.iter().find(|s| s.event == Some(probe_index) && s.label == "didOpen") {
+                let pubs = publish_of(step);
+                let ok = pubs.len() == 1 && pubs[0]["params"]["uri"].as_str() == Some(&expand_uri("ws:probe.st"));
+                if ok {
+                    stats.count("c12.recovery_probes_served");
+                } else {
+                    out.push(viol("C12", "C12/recovery-probe-not-served".into(), format!("after the history the didOpen of a valid document got outputs {:?}", step.outputs.iter().map(short).collect::<Vec<_>>())));
+                }
+            }
+        }
+    }
+    out
+}
+
+// ---------------------------------------------------------------------------------------------
+// C11: reference models
+
+/// What a freshly started server publishes for `uri` when it is opened last, after all other
+/// documents of the model (in sorted or shuffled order).
+fn fresh_server_publish(t: &LspTrace, model: &Model, uri: &str, version: i32, seed: u64, shuffle: bool) -> Result<Value, String> {
+    let hooks = SimHooks::new(root(), mix(&[seed, 77]), vec![]);
+    let mut s = Session::start(seed, hooks, ws_folder_uri(t));
+    let target_path = uri_path(uri);
+    let mut others: Vec<(&String, &(i32, String))> = model.docs.iter().filter(|(u, _)| uri_path(u) != target_path).collect();
+    if shuffle {
+        Rng::new(seed).shuffle(&mut others);
+    }
+    for (u, (v, text)) in others {
+        let ev = Event::Open { uri: u.clone(), version: *v, text: text.clone() };
+        s.deliver(None, "didOpen", event_message(&ev, 0).unwrap());
+    }
+    let text = model.docs.iter().find(|(u, _)| uri_path(u) == target_path).map(|(_, (_, t))| t.clone()).unwrap_or_default();
+    let ev = Event::Open { uri: uri.to_string(), version, text };
+    s.deliver(None, "target", event_message(&ev, 0).unwrap());
+    let inc = s.shutdown_and_exit();
+    if let Some(d) = inc.died {
+        return Err(format!("fresh server died: {d}"));
+    }
+    let step = inc.steps.iter().find(|s| s.label == "target").ok_or("no target step")?;
+    let pubs = publish_of(step);
+    if pubs.len() != 1 {
+        return Err(format!("fresh server published {} notifications", pubs.len()));
+    }
+    Ok(pubs[0]["params"]["diagnostics"].clone())
+}
+
+fn sorted_multiset(v: &Value) -> Vec<String> {
+    let mut items: Vec<String> = v.as_array().map(|a| a.iter().map(|x| x.to_string()).collect()).unwrap_or_default();
+    items.sort();
+    items
+}
+
+fn offset_to_line_col(text: &str, offset: usize) -> Option<(u64, u64)> {
+    if offset > text.len() || !text.is_char_boundary(offset) {
+        return None;
+    }
+    let mut line = 0;
+    let mut col = 0;
+    for c in text[..offset].chars() {
+        if c == '\n' {
+            line += 1;
+            col = 0;
+        } else {
+            col += 1;
+        }
+    }
+    Some((line, col))
+}
+
+/// Runs the real `check` on a directory holding the model's contents (matched by base name).
+fn check_on_contents(t: &LspTrace, model: &Model, seed: u64) -> Result<(bool, Vec<DiagRec>), String> {
+    let chk = root().join("chk");
+    let _ = std::fs::remove_dir_all(&chk);
+    std::fs::create_dir_all(&chk).map_err(|e| e.to_string())?;
+    let mut contents: BTreeMap<String, String> = BTreeMap::new();
+    if t.use_ws_folder {
+        for (name, text) in &t.ws_files {
+            let lower = name.to_lowercase();
+            if lower.ends_with(".st") || lower.ends_with(".iec") {
+                contents.insert(name.clone(), text.clone());
+            }
+        }
+    }
+    for (path, text) in model.by_path() {
+        let base = path.rsplit('/').next().unwrap_or(&path).to_string();
+        contents.insert(base, text);
+    }
+    for (name, text) in &contents {
+        std::fs::write(chk.join(name), text).map_err(|e| e.to_string())?;
+    }
+    let hooks = SimHooks::new(root(), mix(&[seed, 78]), vec![]);
+    let args = vec![chk.clone()];
+    let res = run_simulated_process(seed, Some(hooks.clone()), move || ironplcc::cli::check(&args, false));
+    let log = hooks.take_log();
+    let _ = std::fs::remove_dir_all(&chk);
+    let mut diags = vec![];
+    for (with_project, records) in &log.diag_calls {
+        for r in records {
+            let conv = |l: &ironplcc::verif::LabelRecord| crate::world::LabelRec { file: l.file.clone(), start: l.start, end: l.end, text_len: l.text_len, on_char_boundary: l.on_char_boundary };
+            diags.push(DiagRec { code: r.code.clone(), primary: conv(&r.primary), secondary: r.secondary.iter().map(conv).collect(), with_project: *with_project });
+        }
+    }
+    match res {
+        Ok(r) => Ok((r.is_ok(), diags)),
+        Err(p) => Err(format!("check panicked: {p}")),
+    }
+}
+
+fn base_name(p: &str) -> &str {
+    p.rsplit('/').next().unwrap_or(p)
+}
+
+fn model_class_signature(model: &Model) -> String {
+    let mut classes: Vec<&'static str> = model.docs.values().map(|(_, t)| class_of_text(t)).collect();
+    classes.sort();
+    classes.join("+")
+}
+
+fn oracle_c11(t: &LspTrace, h: &History, stats: &mut Stats) -> Vec<Violation> {
+    let mut out = vec![];
+    let trace_hash = hash_str(&serde_json::to_string(t).unwrap());
+    for (ii, inc) in h.incarnations.iter().enumerate() {
+        // the reference model of *this* server incarnation: what it has been told so far (a
+        // restarted server knows nothing)
+        let mut model = Model::default();
+        for (si, step) in inc.steps.iter().enumerate() {
+            model.apply_sent(&step.sent);
+            let Some((uri, version)) = edit_of(step) else { continue };
+            if inc.died_at_step == Some(si) {
+                let why = inc.died.clone().unwrap_or_default();
+                out.push(viol("C11", format!("C11/server-died/{}/{}", step.label, panic_signature(&why)), format!("server terminated while processing {}: {why}", short(&step.sent))));
+                return out;
+            }
+            stats.count("c11.edit_steps");
+            // oracle 1: exactly one publishDiagnostics for that document and version
+            let pubs = publish_of(step);
+            let ok1 = step.outputs.len() == 1 && pubs.len() == 1 && pubs[0]["params"]["uri"].as_str() == Some(&uri) && pubs[0]["params"]["version"].as_i64() == Some(version);
+            if !ok1 {
+                out.push(viol(
+                    "C11",
+                    format!("C11/not-exactly-one-publish/{}", step.label),
+                    format!("{} (uri {uri}, version {version}) was answered by {:?}", step.label, step.outputs.iter().map(short).collect::<Vec<_>>()),
+                ));
+                continue;
+            }
+            let published = &pubs[0]["params"]["diagnostics"];
+            // only file documents have "current contents"
+            let sym = uri.clone();
+            let Some(path) = uri_path(&sym) else { continue };
+            let Some(text) = model.by_path().get(&path).cloned() else {
+                // didChange without content on a never-opened document: no current contents
+                continue;
+            };
+            // oracle 2: fresh-server equivalence
+            let seed = mix(&[trace_hash, ii as u64, si as u64]);
+            let classes = model_class_signature(&model);
+            match fresh_server_publish(t, &model, &sym, version as i32, seed, false) {
+                Ok(fresh) => {
+                    stats.count("c11.fresh_server_comparisons");
+                    if sorted_multiset(&fresh) != sorted_multiset(published) {
+                        out.push(viol(
+                            "C11",
+                            format!("C11/fresh-server-mismatch/{}/docs={classes}", step.label),
+                            format!(
+                                "after the history the server published for {uri} (version {version}): {} but a freshly started server holding the same current contents ({} documents) publishes {}",
+                                short(published),
+                                model.docs.len(),
+                                short(&fresh)
+                            ),
+                        ));
+                        continue;
+                    }
+                    // two fresh servers that differ only in seed and open order must agree as well
+                    if (si + ii) % 4 == 0 && model.docs.len() > 1 {
+                        if let Ok(fresh2) = fresh_server_publish(t, &model, &sym, version as i32, mix(&[seed, 5]), true) {
+                            stats.count("c11.fresh_vs_fresh_comparisons");
+                            if sorted_multiset(&fresh2) != sorted_multiset(&fresh) {
+                                out.push(viol(
+                                    "C11",
+                                    format!("C11/fresh-servers-disagree/docs={classes}"),
+                                    format!("two freshly started servers given the same contents (different OS randomness / open order) publish {} and {} for {uri}", short(&fresh), short(&fresh2)),
+                                ));
+                                continue;
+                            }
+                        }
+                    }
+                }
+                Err(e) => {
+                    out.push(viol("C11", format!("C11/fresh-server-failed/docs={classes}"), e));
+                    continue;
+                }
+            }
+            // oracle 3: equals `check` on files with the same contents
+            match check_on_contents(t, &model, mix(&[seed, 9])) {
+                Ok((_ok, diags)) => {
+                    stats.count("c11.check_comparisons");
+                    let base = base_name(&path);
+                    let mut pubset: Vec<(String, u64, u64)> = published
+                        .as_array()
+                        .map(|a| a.iter().map(|d| (d["code"].as_str().unwrap_or("").to_string(), d["range"]["start"]["line"].as_u64().unwrap_or(0), d["range"]["start"]["character"].as_u64().unwrap_or(0))).collect())
+                        .unwrap_or_default();
+                    let mut missing = vec![];
+                    let mut secondary_codes: Vec<String> = vec![];
+                    for d in &diags {
+                        if base_name(&d.primary.file) == base {
+                            let pos = offset_to_line_col(&text, d.primary.start).unwrap_or((u64::MAX, u64::MAX));
+                            if let Some(i) = pubset.iter().position(|p| p.0 == d.code && p.1 == pos.0 && p.2 == pos.1) {
+                                pubset.remove(i);
+                            } else {
+                                missing.push((d.code.clone(), pos));
+                            }
+                        } else if d.secondary.iter().any(|l| base_name(&l.file) == base) {
+                            secondary_codes.push(d.code.clone());
+                        }
+                    }
+                    // anything else published must be a check diagnostic that only touches this file with a secondary label
+                    let mut extras = vec![];
+                    for p in &pubset {
+                        if let Some(i) = secondary_codes.iter().position(|c| *c == p.0) {
+                            secondary_codes.remove(i);
+                        } else {
+                            extras.push(p.clone());
+                        }
+                    }
+                    if !missing.is_empty() || !extras.is_empty() {
+                        let mut codes: Vec<String> = missing.iter().map(|m| format!("-{}", m.0)).chain(extras.iter().map(|e| format!("+{}", e.0))).collect();
+                        codes.sort();
+                        codes.dedup();
+                        out.push(viol(
+                            "C11",
+                            format!("C11/check-mismatch/{}", codes.join(",")),
+                            format!("for {base}: `check` on the same contents reports {missing:?} (code, (line, col)) that the server did not publish, and the server published {extras:?} that `check` does not report for this file; published = {}", short(published)),
+                        ));
+                    }
+                }
+                Err(e) => out.push(viol("C11", "C11/check-crashed".into(), e)),
+            }
+        }
+        if inc.died.is_some() && out.is_empty() {
+            // died on a step that is not an edit (cannot happen in C11 histories, but do not hide it)
+            let why = inc.died.clone().unwrap_or_default();
+            out.push(viol("C11", format!("C11/server-died/other/{}", panic_signature(&why)), why));
+        }
+    }
+    out
+}
+
+// ---------------------------------------------------------------------------------------------
+// C15: semantic tokens
+
+fn legend_of(h: &History) -> Vec<String> {
+    for inc in &h.incarnations {
+        if let Some(step) = inc.steps.first() {
+            for o in &step.outputs {
+                if let Some(arr) = o["result"]["capabilities"]["semanticTokensProvider"]["legend"]["tokenTypes"].as_array() {
+                    return arr.iter().map(|v| v.as_str().unwrap_or("").to_string()).collect();
+                }
+            }
+        }
+    }
+    vec![]
+}
+
+/// (line, character) of every byte offset that starts a character, LSP style (ASCII documents:
+/// UTF-16 units = chars = bytes).
+fn line_col_table(text: &str) -> BTreeMap<(u32, u32), usize> {
+    let mut m = BTreeMap::new();
+    let mut line = 0u32;
+    let mut col = 0u32;
+    for (i, c) in text.char_indices() {
+        m.insert((line, col), i);
+        if c == '\n' {
+            line += 1;
+            col = 0;
+        } else {
+            col += c.len_utf16() as u32;
+        }
+    }
+    m.insert((line, col), text.len());
+    m
+}
+
+fn check_tokens(text: &str, data: &[u64], legend: &[String]) -> Result<usize, (String, String)> {
+    let (tokens, lex) = tokenize_program(text, &FileId::default(), &ParseOptions::default());
+    debug_assert!(lex.is_empty());
+    if data.len() % 5 != 0 {
+        return Err(("length-not-multiple-of-5".into(), format!("data has {} entries", data.len())));
+    }
+    let table = line_col_table(text);
+    // reference: start offset -> (length in chars, text, type)
+    let mut reference: BTreeMap<usize, (&ironplc_parser::token::Token, bool)> = BTreeMap::new();
+    for tok in &tokens {
+        if tok.span.end > tok.span.start && tok.text == text.get(tok.span.start..tok.span.end).unwrap_or("\u{0}") {
+            reference.insert(tok.span.start, (tok, false));
+        }
+    }
+    let mut line = 0u32;
+    let mut start = 0u32;
+    let mut prev_end: Option<(u32, u32)> = None;
+    let mut spelling_types: BTreeMap<String, u64> = BTreeMap::new();
+    for (k, chunk) in data.chunks(5).enumerate() {
+        let (dl, ds, len, ty, mods) = (chunk[0] as u32, chunk[1] as u32, chunk[2] as u32, chunk[3], chunk[4]);
+        if dl > 0 {
+            line += dl;
+            start = ds;
+        } else {
+            start += ds;
+        }
+        if k > 0 && dl == 0 && ds == 0 {
+            return Err(("not-strictly-increasing".into(), format!("token {k} has delta (0, 0)")));
+        }
+        if let Some((pl, pe)) = prev_end {
+            if line == pl && start < pe {
+                return Err(("overlap".into(), format!("token {k} at ({line},{start}) overlaps the previous token ending at ({pl},{pe})")));
+            }
+        }
+        if ty as usize >= legend.len() {
+            return Err(("type-outside-legend".into(), format!("token {k} has type index {ty}, legend has {} entries", legend.len())));
+        }
+        if mods != 0 {
+            return Err(("modifiers-outside-legend".into(), format!("token {k} has modifier bits {mods} but no modifiers are advertised")));
+        }
+        let Some(offset) = table.get(&(line, start)).copied() else {
+            return Err(("position-outside-document".into(), format!("token {k} decodes to ({line},{start}) which is not a position of the document")));
+        };
+        let Some((tok, hit)) = reference.get_mut(&offset) else {
+            return Err(("not-a-lexeme-start".into(), format!("token {k} decodes to ({line},{start}) = offset {offset}, where no lexeme of the document starts (text there: {:?})", text.get(offset..(offset + 12).min(text.len())))));
+        };
+        if *hit {
+            return Err(("lexeme-reported-twice".into(), format!("token {k} hits lexeme {:?} again", tok.text)));
+        }
+        *hit = true;
+        let char_len = tok.text.chars().map(|c| c.len_utf16() as u32).sum::<u32>();
+        // the LSP length of a multi-line token is not well defined for line-based clients; only
+        // single-line lexemes are compared
+        if !tok.text.contains('\n') && len != char_len {
+            return Err(("wrong-length".into(), format!("token {k} for lexeme {:?} has length {len}, expected {char_len}", tok.text)));
+        }
+        prev_end = Some((line, start + len));
+        // class check, deliberately narrow
+        let legend_name = legend[ty as usize].as_str();
+        let t = &tok.text;
+        let expected = if t.starts_with("(*") {
+            Some("comment")
+        } else if matches!(tok.token_type, ironplc_parser::token::TokenType::Identifier) {
+            Some("variable")
+        } else if matches!(t.as_str(), "+" | "-" | "*" | "/" | "**" | ":=" | "=" | "<>" | "<" | ">" | "<=" | ">=") {
+            Some("operator")
+        } else {
+            None
+        };
+        if let Some(e) = expected {
+            if legend_name != e {
+                return Err(("wrong-class".into(), format!("lexeme {t:?} is classified {legend_name}, expected {e}")));
+            }
+        }
+        let key = t.to_lowercase();
+        if let Some(prev) = spelling_types.get(&key) {
+            if *prev != ty && !matches!(tok.token_type, ironplc_parser::token::TokenType::Identifier) {
+                return Err(("inconsistent-class".into(), format!("lexeme {t:?} is classified {ty} here and {prev} elsewhere in the same response")));
+            }
+        }
+        spelling_types.insert(key, ty);
+    }
+    Ok(data.len() / 5)
+}
+
+fn fresh_server_tokens(uri: &str, text: &str, seed: u64) -> Result<Value, String> {
+    let hooks = SimHooks::new(root(), seed, vec![]);
+    let mut s = Session::start(seed, hooks, None);
+    s.deliver(None, "didOpen", event_message(&Event::Open { uri: uri.to_string(), version: 1, text: text.to_string() }, 0).unwrap());
+    s.deliver(None, "target", event_message(&Event::SemTok { uri: uri.to_string() }, 0).unwrap());
+    let inc = s.shutdown_and_exit();
+    if let Some(d) = inc.died {
+        return Err(format!("fresh server died: {d}"));
+    }
+    let step = inc.steps.iter().find(|s| s.label == "target").ok_or("no target step")?;
+    let r = step.outputs.iter().find(|o| is_response(o)).ok_or("fresh server did not answer")?;
+    Ok(r.get("result").cloned().unwrap_or(Value::Null))
+}
+
+fn oracle_c15(t: &LspTrace, h: &History, stats: &mut Stats) -> Vec<Violation> {
+    let mut out = vec![];
+    let legend = legend_of(h);
+    if legend.is_empty() {
+        out.push(viol("C15", "C15/no-legend".into(), "the initialize response advertises no semantic token legend".into()));
+        return out;
+    }
+    let trace_hash = hash_str(&serde_json::to_string(t).unwrap());
+    for (ii, inc) in h.incarnations.iter().enumerate() {
+        let mut model = Model::default();
+        for (si, step) in inc.steps.iter().enumerate() {
+            model.apply_sent(&step.sent);
+            if inc.died_at_step == Some(si) {
+                let why = inc.died.clone().unwrap_or_default();
+                out.push(viol("C15", format!("C15/server-died/{}/{}", step.label, panic_signature(&why)), format!("server terminated while processing {}: {why}", short(&step.sent))));
+                return out;
+            }
+            if method_of(&step.sent) != "textDocument/semanticTokens/full" {
+                continue;
+            }
+            stats.count("c15.requests");
+            let Some(sym) = step.sent["params"]["textDocument"]["uri"].as_str().map(|s| s.to_string()) else { continue };
+            let sym = &sym;
+            let responses: Vec<&Value> = step.outputs.iter().filter(|o| is_response(o) && o["id"] == step.sent["id"]).collect();
+            if responses.len() != 1 {
+                out.push(viol("C15", "C15/not-exactly-one-response".into(), format!("semanticTokens request for {sym} got {} responses", responses.len())));
+                continue;
+            }
+            let resp = responses[0];
+            let text = uri_path(sym).and_then(|p| model.by_path().get(&p).cloned());
+            let Some(text) = text else {
+                // unknown or non-file document: null or an error are both acceptable
+                let acceptable = resp.get("error").map(|e| !e.is_null()).unwrap_or(false) || resp.get("result").map(|r| r.is_null()).unwrap_or(true);
+                if !acceptable {
+                    out.push(viol("C15", "C15/tokens-for-unknown-document".into(), format!("request for never-opened {sym} returned {}", short(resp))));
+                } else {
+                    stats.count("c15.unknown_document_requests");
+                }
+                continue;
+            };
+            if !text.is_ascii() {
+                continue;
+            }
+            let (_, lex) = tokenize_program(&text, &FileId::default(), &ParseOptions::default());
+            let result = resp.get("result").cloned().unwrap_or(Value::Null);
+            if !lex.is_empty() {
+                stats.count("c15.lexical_error_documents");
+                if !result.is_null() {
+                    out.push(viol("C15", "C15/partial-list-for-invalid-text".into(), format!("the current text of {sym} has a lexical error but the result is {}", short(&result))));
+                }
+                continue;
+            }
+            if result.is_null() || resp.get("error").map(|e| !e.is_null()).unwrap_or(false) {
+                out.push(viol("C15", "C15/null-for-valid-text".into(), format!("the current text of {sym} tokenizes without error but the response is {}", short(resp))));
+                continue;
+            }
+            let data: Vec<u64> = result["data"].as_array().map(|a| a.iter().map(|v| v.as_u64().unwrap_or(u64::MAX)).collect()).unwrap_or_default();
+            match check_tokens(&text, &data, &legend) {
+                Ok(n) => {
+                    stats.add("c15.tokens_decoded", n as u64);
+                    if n > 0 {
+                        stats.count("c15.nonempty_responses");
+                    }
+                }
+                Err((clause, detail)) => {
+                    out.push(viol("C15", format!("C15/{clause}"), format!("{sym}: {detail}; document = {:?}", if text.len() > 200 { &text[..200] } else { &text })));
+                    continue;
+                }
+            }
+            // history independence: a fresh server that was only sent didOpen(u, text) answers the same
+            match fresh_server_tokens(sym, &text, mix(&[trace_hash, ii as u64, si as u64])) {
+                Ok(fresh) => {
+                    stats.count("c15.fresh_server_comparisons");
+                    if fresh != result {
+                        out.push(viol("C15", "C15/history-dependent".into(), format!("{sym}: after the history the response is {} but a fresh server that only opened the current text answers {}", short(&result), short(&fresh))));
+                    }
+                }
+                Err(e) => out.push(viol("C15", "C15/fresh-server-failed".into(), e)),
+            }
+        }
+    }
+    out
+}
+
+// ---------------------------------------------------------------------------------------------
+
+pub fn execute(t: &LspTrace, stats: &mut Stats) -> RunReport {
+    let h = run_history(t);
+    let mut steps = 0;
+    for inc in &h.incarnations {
+        steps += inc.steps.len() as u64;
+        stats.observe(inc);
+    }
+    stats.add("lsp_steps", steps);
+    stats.add("server_incarnations", h.incarnations.len() as u64);
+    for ev in &t.events {
+        stats.count(&format!("event.{}", ev.kind()));
+        match ev {
+            Event::UnknownRequest { method, .. } => stats.count(&format!("event.unknownRequest.{method}")),
+            Event::UnknownNotification { method, .. } => stats.count(&format!("event.unknownNotification.{method}")),
+            Event::Open { uri, .. } | Event::Change { uri, .. } | Event::SemTok { uri } => {
+                if !WS_URIS.contains(&uri.as_str()) {
+                    stats.count("event.oddUri");
+                }
+            }
+            _ => {}
+        }
+    }
+    if t.use_ws_folder {
+        stats.count("event.workspaceFolder");
+    }
+    // reach: abstract server state = sorted (slot, text class) after the history x last event kind
+    let mut model = Model::default();
+    for ev in &t.events {
+        model.apply(ev);
+    }
+    let state: Vec<String> = model.docs.iter().map(|(u, (_, text))| format!("{u}:{}", class_of_text(text))).collect();
+    stats.distinct_str("abstract_server_states", &format!("{state:?}|{}", t.events.last().map(|e| e.kind()).unwrap_or("")));
+    let shape: Vec<&str> = t.events.iter().map(|e| e.kind()).collect();
+    stats.distinct_str("history_shapes", &shape.join(","));
+
+    let violations = match t.prop.as_str() {
+        "C11" => oracle_c11(t, &h, stats),
+        "C12" => oracle_c12(t, &h, stats),
+        "C15" => oracle_c15(t, &h, stats),
+        other => panic!("no lsp oracle for {other}"),
+    };
+    let nontrivial = t.events.iter().any(|e| matches!(e, Event::Open { .. } | Event::Change { .. } | Event::SemTok { .. } | Event::UnknownRequest { .. } | Event::ClientResponse { .. }));
+    RunReport { violations, nontrivial }
+}
+
+// ---------------------------------------------------------------------------------------------
+// Shrinking
+
+pub fn shrink(t: &LspTrace) -> Vec<LspTrace> {
+    let mut out = vec![];
+    let n = t.events.len();
+    // the C12 recovery probe (last event) stays
+    let keep_last = t.prop == "C12";
+    let limit = if keep_last { n.saturating_sub(1) } else { n };
+    // 1. drop chunks of events, then single events
+    let mut chunk = limit / 2;
+    while chunk >= 2 {
+        let mut start = 0;
+        while start + chunk <= limit {
+            let mut c = t.clone();
+            c.events.drain(start..start + chunk);
+            out.push(c);
+            start += chunk;
+        }
+        chunk /= 2;
+    }
+    for i in (0..limit).rev() {
+        let mut c = t.clone();
+        c.events.remove(i);
+        out.push(c);
+    }
+    // 2. no workspace folder, fewer files on disk
+    if t.use_ws_folder {
+        let mut c = t.clone();
+        c.use_ws_folder = false;
+        out.push(c);
+    }
+    for i in 0..t.ws_files.len() {
+        let mut c = t.clone();
+        c.ws_files.remove(i);
+        out.push(c);
+    }
+    // 3. simpler events
+    for (i, ev) in t.events.iter().enumerate() {
+        match ev {
+            Event::Change { uri, version, texts } if texts.len() > 1 => {
+                let mut c = t.clone();
+                c.events[i] = Event::Change { uri: uri.clone(), version: *version, texts: vec![texts.last().unwrap().clone()] };
+                out.push(c);
+            }
+            _ => {}
+        }
+        // simpler texts: drop trailing declarations / lines
+        let text = match ev {
+            Event::Open { text, .. } => Some(text.clone()),
+            Event::Change { texts, .. } if texts.len() == 1 => Some(texts[0].clone()),
+            _ => None,
+        };
+        if let Some(text) = text {
+            let mut candidates: Vec<String> = vec![];
+            if !text.is_empty() {
+                candidates.push(String::new());
+                // halves at declaration boundaries
+                let bounds: Vec<usize> = text.match_indices("\nEND_").filter_map(|(p, _)| text[p + 1..].find('\n').map(|q| p + 1 + q + 1)).filter(|b| *b < text.len()).collect();
+                for b in bounds.iter().rev().take(3) {
+                    candidates.push(text[..*b].to_string());
+                    candidates.push(text[*b..].to_string());
+                }
+                if text.contains("\r\n") {
+                    candidates.push(text.replace("\r\n", "\n"));
+                }
+            }
+            for cand in candidates {
+                let mut c = t.clone();
+                c.events[i] = match ev {
+                    Event::Open { uri, version, .. } => Event::Open { uri: uri.clone(), version: *version, text: cand },
+                    Event::Change { uri, version, .. } => Event::Change { uri: uri.clone(), version: *version, texts: vec![cand] },
+                    _ => unreachable!(),
+                };
+                out.push(c);
+            }
+        }
+    }
+    out
+}
